@@ -282,5 +282,11 @@ for _pid in ("C12", "C13"):
            "model, wrapper structs / same-size union views / transmute = identity on the BitVec carrier, x2 / x4 = concatenation with "
            "element 0 low, impl resolution by header matching under the S3 / S4 flags, NI = NoNI), printed in the header of "
            "lean/CC/Gen/SimdX86Src.lean")
+# ---- round 6 of the translator tie: code that was still hand-transcribed (tools/inventory_hashc.py ->
+#      lean/CC/Gen/HashCSrc.lean): the JH compressor as a whole, the Skein `Block` union, the Grøstl intrinsic dataflow
+for _pid, _thm in (("C06", "source_compressor_match"), ("C05", "source_block_match"), ("C07", "source_dataflow_match")):
+    if _thm not in PROPS[_pid]["theorems"]:
+        PROPS[_pid]["theorems"] = list(PROPS[_pid]["theorems"]) + [_thm]
+    _te = "tools/inventory_hashc.py (translator, round 6): reading table printed in the header of lean/CC/Gen/HashCSrc.lean (raw pointers, unions, transmute!, constant match, function values, intrinsics ↦ CC.Groestl.Intrin)"
     if _te not in PROPS[_pid].get("trusted_extra", []):
         PROPS[_pid]["trusted_extra"] = list(PROPS[_pid].get("trusted_extra", [])) + [_te]
